@@ -1056,12 +1056,14 @@ package mqtt
 
 // verif:func mqtt.TopicsIndex.InlineSubscribe
 //@ requires x.root != nil
-//@ modifies allentries("string", "*particle"), allentries("int", "InlineSubscription")
+//@ modifies allentries("string", "*particle"), allentries("int", "InlineSubscription"), ninlinesub
+//@ axiom ninlinesub == old(ninlinesub) + 1
 //@ ensures C31-inline-subscribe-reports-whether-the-subscription-is-new: r0 <==> (fresh(subNode(subscription.Filter)) || !old(has(subNode(subscription.Filter).inlineSubscriptions.internal, subscription.Identifier)))
 //@ ensures C31-inline-subscription-stored-at-the-filters-node: has(subNode(subscription.Filter).inlineSubscriptions.internal, subscription.Identifier) && subNode(subscription.Filter).inlineSubscriptions.internal[subscription.Identifier] == subscription
 // verif:func mqtt.TopicsIndex.InlineUnsubscribe
 //@ requires x.root != nil && wfTrie() && nodesValid()
-//@ modifies allentries("string", "*particle"), allentries("int", "InlineSubscription")
+//@ modifies allentries("string", "*particle"), allentries("int", "InlineSubscription"), ninlineunsub
+//@ axiom ninlineunsub == old(ninlineunsub) + 1
 //@ ensures C31-inline-unsubscribe-reports-whether-the-subscription-existed: r0 ==> old(has(pathNode(filter, 0).inlineSubscriptions.internal, id))
 
 // ======================================================================================
@@ -1094,3 +1096,30 @@ package mqtt
 //@ invariant nobody-else: forall c string :: has(s.Subscriptions, c) ==> old(has(s.Subscriptions, c)) || has(s.SharedSelected, c)
 //@ invariant kept: forall c string :: old(has(s.Subscriptions, c)) ==> has(s.Subscriptions, c)
 //@ invariant maps: s.Subscriptions == old(s.Subscriptions) && s.SharedSelected == old(s.SharedSelected) && s.Subscriptions != nil && s.Subscriptions != s.SharedSelected && rangemap1 == s.SharedSelected && (forall c string :: (has(s.SharedSelected, c) <==> old(has(s.SharedSelected, c))))
+
+// ======================================================================================
+// The embedding (inline client) API (C40): wiring onto the paths the other properties cover
+// ======================================================================================
+// number of inline subscriptions registered through InlineSubscribe, and removed through InlineUnsubscribe (ghost, definitional)
+// verif:ghost var ninlinesub int
+// verif:ghost var ninlineunsub int
+// verif:func mqtt.Server.InjectPacket trusted modifies=all
+// verif:func mqtt.InlineSubFn trusted modifies=all params=cl,sub,pk
+// verif:func mqtt.Server.Publish modifies=all
+//@ requires s.Options != nil
+//@ ensures C40-nothing-is-published-while-the-inline-client-is-disabled: !s.Options.InlineClient ==> r0 != nil
+//@ callsite mqtt.Server.InjectPacket C40-published-as-the-inline-client-with-the-requested-qos-and-retain-flag: arg1 == s.inlineClient && arg2.FixedHeader.Type == Publish && arg2.FixedHeader.Qos == qos && (arg2.FixedHeader.Retain <==> retain) && arg2.TopicName == topic && arg2.Payload == payload && s.Options.InlineClient
+
+// verif:func mqtt.Server.Subscribe modifies=all
+//@ requires s.Options != nil && s.hooks != nil && s.Topics != nil && s.Topics.root != nil && s.inlineClient != nil
+//@ ensures C40-invalid-filter-or-missing-handler-creates-nothing: (!s.Options.InlineClient || handler == nil || !validSub(filter)) ==> r0 != nil && ninlinesub == old(ninlinesub)
+//@ callsite mqtt.TopicsIndex.InlineSubscribe C40-the-inline-subscription-is-registered-for-this-filter-and-identifier: arg1.Subscription.Filter == filter && arg1.Subscription.Identifier == subscriptionId && arg1.Handler == handler && validSub(filter)
+//@ callsite mqtt.TopicsIndex.Messages C40-retained-messages-of-the-filter-after-the-subscription-is-in-place: arg1 == filter && ninlinesub == old(ninlinesub) + 1
+//@ callsite mqtt.InlineSubFn C40-each-retained-message-goes-to-this-subscriptions-handler: arg0 == s.inlineClient && arg1.Filter == filter && arg1.Identifier == subscriptionId
+// verif:loop mqtt.Server.Subscribe 1
+//@ invariant s.inlineClient == old(s.inlineClient)
+
+// verif:func mqtt.Server.Unsubscribe modifies=all
+//@ requires s.Options != nil && s.hooks != nil && s.Topics != nil && s.Topics.root != nil && s.inlineClient != nil
+//@ ensures C40-invalid-filter-removes-nothing: (!s.Options.InlineClient || !validSub(filter)) ==> r0 != nil && ninlineunsub == old(ninlineunsub)
+//@ callsite mqtt.TopicsIndex.InlineUnsubscribe C40-only-this-identifier-on-this-filter-is-removed: arg1 == subscriptionId && arg2 == filter
